@@ -268,7 +268,7 @@ CHECKS = {
               "zero data race reports; each report is keyed by the unordered pair of innermost ship-go functions of the two accesses. "
               "non-trivial = >= 2 operations issued concurrently (hub level) / script with >= 4 events (stress); distinct = hash of the script"),
         runs=[
-            dict(engine="hubnet", test="TestC20Hub", race=True, shrinktime="1s", quick=dict(checks=6, shards=3, timeout=1500),
+            dict(engine="hubnet", test="TestC20Hub", race=True, shrinktime="1s", quick=dict(checks=9, shards=3, timeout=1500),
                  thorough=dict(checks=60, shards=6, timeout=6000), env=dict(VERIF_BATCH="6")),
             dict(engine="shipsim", test="TestC20Stress", race=True, quick=dict(checks=4000, shards=3, timeout=900),
                  thorough=dict(checks=150000, shards=6, timeout=4000)),
